@@ -26,7 +26,7 @@ ISO_MENU = {
     "A6": lambda S: [S(0, de=-80), S(3, ds=-90), S(4)],               # alternative donor and acceptor on a long nested intron
     "A7": lambda S: [S(1), S(2, ds=40)],                              # alternative first exon + alternative acceptor
 }
-SECOND = ("none", "same-strand", "antisense", "mono-in-intron", "same+anti")
+SECOND = ("none", "same-strand", "antisense", "mono-in-intron", "same+anti", "exon-is-intron")
 
 
 def annotation(variant):
@@ -45,6 +45,9 @@ def annotation(variant):
         genes.append({"id": "GM", "chr": "chr1", "strand": "-", "transcripts": [{"id": "M1", "exons": [S(1), S(2)]}]})         # antisense sharing exons
     if second == "mono-in-intron":
         genes.append({"id": "GI", "chr": "chr1", "strand": "-", "transcripts": [{"id": "I1", "exons": [[1351, 1600]]}]})       # inside intron 0-1
+    if second == "exon-is-intron":
+        # an antisense gene whose exons have exactly the coordinates of two introns of GA (exon and intron rows with equal coordinates)
+        genes.append({"id": "GE", "chr": "chr1", "strand": "-", "transcripts": [{"id": "E1", "exons": [[S(0)[1] + 1, S(1)[0] - 1], [S(2)[1] + 1, S(3)[0] - 1]]}]})
     # loci without any annotated intron: a mono-exonic gene alone, and two overlapping mono-exonic genes on opposite strands
     genes.append({"id": "GS", "chr": "chr1", "strand": "+", "transcripts": [{"id": "S1", "exons": [[9501, 10100]]}]})
     genes.append({"id": "GP", "chr": "chr1", "strand": "+", "transcripts": [{"id": "P1", "exons": [[11501, 12000]]}]})
@@ -184,6 +187,8 @@ def recount(world, delta, processed, clusters_of_gene):
                 exp_e.setdefault((c, s, e), {}).setdefault(grp, [0, 0])[0] += 1
             elif inner[0] <= s and e <= inner[1]:
                 exp_e.setdefault((c, s, e), {}).setdefault(grp, [0, 0])[1] += 1
+            elif B[0][1] < s and e < B[-1][0]:
+                undecided.add(("exon", c, s, e))       # between the terminal exons but closer than delta to one of them: not decided here
         for (c, s, e), meta in introns.items():
             if not (meta["genes"] & visible):
                 continue
